@@ -258,17 +258,17 @@ func runC09(c *runCtx) {
 		if err != nil {
 			continue
 		}
-		tokSnap := fmt.Sprintf("%v", toks)
+		tokSnap := fmtToks(toks)
 		comments := tk.Comments
-		comSnap := fmt.Sprintf("%v", comments)
+		comSnap := fmtComments(comments)
 		_, _ = tk.Tokenize([]byte("SELECT zz /* other */ -- tail\nFROM qq"))
 		res.count("tok|"+a, true)
-		if fmt.Sprintf("%v", toks) != tokSnap {
+		if fmtToks(toks) != tokSnap {
 			res.fail("held-tokens-modified", "tokens returned by Tokenize changed after the tokenizer was reused", map[string]any{"first": a}, nil)
 		}
-		if fmt.Sprintf("%v", comments) != comSnap {
+		if fmtComments(comments) != comSnap {
 			res.fail("held-comments-modified", "comments read from Tokenizer.Comments changed after the tokenizer was reused (Reset truncates and reuses the backing array)",
-				map[string]any{"first": a, "second": "SELECT zz /* other */ -- tail\nFROM qq", "before": comSnap, "after": fmt.Sprintf("%v", comments)}, nil)
+				map[string]any{"first": a, "second": "SELECT zz /* other */ -- tail\nFROM qq", "before": comSnap, "after": fmtComments(comments)}, nil)
 		}
 	}
 }
